@@ -1119,28 +1119,8 @@ def fspoll_part(chk, exe, model, thorough, work):
         chk.sample({"fs_poll_case": minputs[-1][:600], "impl": impl[-1][:600]})
 
 
-KEY_ASSERT = "fs_poll_timer_cb_assert_after_restart_in_same_timer_pass"
-
-
-def assert_probe(chk, exe, work):
-    """asserts-on build: uv_fs_poll_stop + uv_fs_poll_start from another timer's callback while the handle's
-    interval timer is already in the ready queue of the running uv__run_timers pass -> timer_cb's
-    assert(ctx->parent_handle->poll_ctx == ctx) fails (release builds issue one stray stat of the old path)."""
-    case = "1000 2 ; Fw0,1 Fw1,1 I S0,1,0,10,0 U1,10 K R A10 R K R A10 R K R C0 Z ; T0 S0,2,1,10,0"
-    out, rc, err = run_each(exe, [case], work, "a")[0]
-    if rc != 0 and "Assertion" in err and "timer_cb" in err:
-        f = chk.match_known(KEY_ASSERT)
-        if f is not None:
-            f.setdefault("example", {"case": case, "stderr": err[-400:]})
-            chk.known_hit(f)
-        else:
-            chk.violation("fs-poll.c: assertion in timer_cb fails (debug build aborts) when the handle is stopped and "
-                          "restarted from another timer's callback in the uv__run_timers pass in which its interval "
-                          "timer is already due -- unlisted finding " + KEY_ASSERT,
-                          {"kind": "assert", "obligation": "fs-poll.c timer_cb asserts", "case": case,
-                           "stderr": err[-1500:]}, found_input=True)
-    else:
-        chk.cov["assert_probe"] = "no assertion failure (rc=%d)" % rc
+# repaired in /repo 56a9a49 (an abort of the asserts-on harness is a plain violation):
+# fs_poll_timer_cb_assert_after_restart_in_same_timer_pass
 
 
 def main():
@@ -1148,12 +1128,7 @@ def main():
     thorough = chk.tier == "thorough"
     chk.prove()
     try:
-        # fs_poll correspondence runs without asserts (what ships): the assert in timer_cb is reachable
-        # (KEY_ASSERT below) and would hide what a release build does; the asserts-on build is probed apart
-        lib = vf.build_libuv(chk.scratch, "asan", extra=("-DNDEBUG",))
-        libdbg = vf.build_libuv(chk.scratch, "debug")
-        hdbg = vf.cc_harness(chk.scratch, "c17_fspoll_dbg", ["c17_fspoll.c"], lib=libdbg, flavour="debug",
-                             wraps=["clock_gettime", "epoll_pwait", "syscall"])
+        lib = vf.build_libuv(chk.scratch, "asan")   # asserts on: an abort is a VIOLATION
         hpoll = vf.cc_harness(chk.scratch, "c17_fspoll", ["c17_fspoll.c"], lib=lib, flavour="asan",
                               wraps=["clock_gettime", "epoll_pwait", "syscall"])
         hev = vf.cc_harness(chk.scratch, "c17_fsevent", ["c17_fsevent.c"], lib=lib, flavour="asan",
@@ -1164,8 +1139,6 @@ def main():
         chk.finish(rule="build failed")
     work = os.path.join(chk.scratch.dir, "work")
     fspoll_part(chk, hpoll, model, thorough, work)
-    if not chk.replay:
-        assert_probe(chk, hdbg, work)
     fsevent_part(chk, hev, model, thorough, work)
     chk.finish(
         level="proof",
